@@ -35,7 +35,21 @@ def hMemberSeq (args : List String) (real : Option String) : Option Out := do
     | some r => if r == model then "ok" else "FAIL C09.not-a-function-of-N-T-m"
   some { model, verdict := v }
 
+/-- `member-first N T1:m1,T2:m2` → `first-last m/T first-last`: the first `Get()` of a discovery is waiting when two membership
+    informations arrive back to back; `Get` reads the membership ONCE, so its result is the pure function of (N, T1, m1) – the
+    information the waiting channel delivers – and the discovery metric shows that pair next to that range -/
+def hMemberFirst (args : List String) (real : Option String) : Option Out := do
+  let [n, steps] ← pure args | none
+  let n ← n.toNat?
+  let [a, _b] ← (steps.splitOn ",").mapM pair? | none
+  let r := Chunk.memberRangeFast n a.1 a.2
+  let model := s!"{r.1}-{r.2} {a.2}/{a.1} {r.1}-{r.2}"
+  let v := match real with
+    | none => "-"
+    | some r => if r == model then "ok" else "FAIL C09.not-a-function-of-N-T-m"
+  some { model, verdict := v }
+
 def pureHandlers : List (String × (List String → Option String → Option Out)) :=
-  [("chunk", hChunk), ("member", hMember), ("member-seq", hMemberSeq)]
+  [("chunk", hChunk), ("member", hMember), ("member-seq", hMemberSeq), ("member-first", hMemberFirst)]
 
 end GoDcp.Driver
